@@ -310,6 +310,64 @@ def check_float_limits(rep, rng, tier):
     return len(devs), n
 
 
+# ---------------------------------------------------------------- non-ASCII metadata
+
+NON_ASCII = ["\u00e9", "\u00fc", "\u00df\u00e4", "\u20ac", "\u4e2d", "\u4e2d\u6587", "\U0001F600", "\U00010000\U0001F680",
+             "caf\u00e9", "M\u00fcnchen \u2603", "\u00e9\u20ac\U0001F600", "na\u00efve \u4e2d\u6587 \U0001F600 x"]
+
+
+def check_non_ascii(rep, rng, tier):
+    """writer programs whose metadata strings (file guid, coordinate metadata, point cloud guid / name / description /
+    sensor strings, image guid / name / description / sensor strings) hold 2-, 3- and 4-byte UTF-8 characters, one or
+    several (harness kind METAWDEV of slice xg).  The file is judged by the extracted validator with the XML plugged in;
+    and, for THIS writer (which fills with zeros), nothing but zeros may follow the XML section the header declares
+    (the format itself tolerates other bytes there: libE57Format leaves remnants behind its XML)."""
+    impl = core.ensure_harness("debug")
+    hs = lambda t: "=" + t.encode().hex()
+    ascii_s = lambda: rng.choice(["plain", "x", "scan 1"])
+    lines, n_chars = [], []
+    for k in range(48 if tier == "quick" else 1500):
+        slots = ["G", "CM", "PCG", "PN", "PD", "PSV", "PSM", "PSS", "IG", "IN", "ID", "ISV"]
+        hot = {slots[k % len(slots)]: rng.choice(NON_ASCII)} if k < 2 * len(slots) else {x: rng.choice(NON_ASCII) for x in slots if rng.chance(1, 3)}
+        if not hot:
+            hot = {"PN": rng.choice(NON_ASCII)}
+        v = lambda slot: hs(hot.get(slot, ascii_s()))
+        cmd = ["G", v("G"), "CM", v("CM"),
+               "PC", v("PCG"), "3", "x~F/-/-", "y~F/-/-", "z~F/-/-", "PN", v("PN"), "PD", v("PD"), "PSV", v("PSV"), "PSM", v("PSM"), "PSS", v("PSS"),
+               "PP", "3", "f3f800000", "f40000000", "f40400000", "PE",
+               "IMG", v("IG"), "IN", v("IN"), "ID", v("ID"), "ISV", v("ISV"), "IVR", "p", "=010203", "-", "3", "2", "IE", "FIN"]
+        lines.append("METAWDEV " + " ".join(cmd))
+        n_chars.append(sum(1 for t in hot.values() for ch in t if ord(ch) > 127))
+    out = core.run_cases(impl, lines)
+    devs, keep = [], []
+    for l, o, nc in zip(lines, out, n_chars):
+        res, _, dev = o.partition(" | ")
+        if res and all(x == "o" for x in res.split(",")) and dev.strip():
+            devs.append(dev.strip())
+            keep.append((l, nc))
+    dec = core.run_cases(core.DRIVER, ["SPECDECX " + d for d in devs])
+    rep.count(len(devs))
+    n = 0
+    for (l, nc), dev, d in zip(keep, devs, dec):
+        head = dict(t.split("=", 1) for t in d.split() if "=" in t)
+        f = bytes.fromhex(dev)
+        log = crc.strip(f)
+        xo, xl = struct.unpack("<QQ", log[24:40])
+        end = specgen.log_of_phys(xo) + xl
+        xml = log[specgen.log_of_phys(xo):end]
+        bad = cls = None
+        if head.get("dx") in (None, "none") or head.get("wfx") != "1":
+            bad, cls = "the XML section the header declares does not parse / the file is not well formed with it (%s); declared section ends with %r" % (d[:50], xml[-24:]), "c02-xml-unparsable"
+        elif any(log[end:]):
+            bad, cls = "the header's XML length does not cover the document written: %r follows the declared XML section" % bytes(log[end:end + 16]).rstrip(b"\0"), "c02-xml-length"
+        elif not xml.rstrip(b" \t\r\n").endswith(b"</e57Root>"):
+            bad, cls = "the declared XML section does not end with the root end tag: %r" % xml[-24:], "c02-xml-length"
+        if bad:
+            n += 1
+            rep.violation(cls, "%s (%d non-ASCII characters in the metadata); program %s" % (bad, nc, l[:160]), dict(kind="metaw-program", line=l, file=dev))
+    return len(devs), n
+
+
 # ---------------------------------------------------------------- the decoder has teeth
 
 def check_teeth(rep, rng):
@@ -395,6 +453,16 @@ def run(rep, tier, rng, replay=None):
     if not ok:
         return
     specgen.big_stack()
+    if replay and replay.get("kind") == "metaw-program":
+        o = core.run_one(core.ensure_harness("debug"), replay["line"])
+        dev = o.partition(" | ")[2].strip()
+        d = core.run_one(core.DRIVER, "SPECDECX " + dev) if dev else "no-file"
+        log = crc.strip(bytes.fromhex(dev)) if dev else b""
+        xo, xl = struct.unpack("<QQ", log[24:40]) if dev else (0, 0)
+        if "wfx=1" not in d or "dx=none" in d or any(log[specgen.log_of_phys(xo) + xl:]):
+            rep.violation(replay.get("violation_class", "c02-xml-length"), "the header's XML length does not cover the document written (%s)" % d[:50],
+                          dict(kind="metaw-program", line=replay["line"]))
+        return
     if replay and replay.get("kind") == "simw-program":
         o = core.run_one(core.ensure_harness("debug"), replay["line"])
         d = core.run_one(core.DRIVER, "SPECDECX " + o.split(" dev=")[1].split()[0]) if " dev=" in o else "no-file"
@@ -424,9 +492,11 @@ def run(rep, tier, rng, replay=None):
     n_foreign, n_acc = (0, 0) if replay else check_foreign(rep, tier)
     n_teeth, n_teeth_bad = (0, 0) if replay else check_teeth(rep, rng.fork())
     n_fl, n_fl_bad = (0, 0) if replay else check_float_limits(rep, rng.fork(), tier)
+    n_na, n_na_bad = (0, 0) if replay else check_non_ascii(rep, rng.fork(), tier)
     rep.cov.update(programs=len(progs), files_judged=judged, programs_not_ok_skipped=skipped, programs_with_a_failed_call=partly, section_start_residues_mod_1020=len(residues),
                    foreign_files=n_foreign, foreign_files_accepted=n_acc, defective_files_for_the_decoder=n_teeth, defects_not_rejected=n_teeth_bad,
-                   float_limit_prototypes=n_fl, prototype_values_out_of_bounds=n_fl_bad, direct_failures=n_dir, correspondence_failures=n_corr,
+                   float_limit_prototypes=n_fl, prototype_values_out_of_bounds=n_fl_bad,
+                   non_ascii_metadata_programs=n_na, non_ascii_failures=n_na_bad, direct_failures=n_dir, correspondence_failures=n_corr,
                    traces_validated_against_impl=len(progs))
     rep.sample(dict(kind="written file", items=[c01.item_tok(x)[:100] for x in progs[len(progs) // 2]]))
     rep.cov["rule"] = ("writer programs of C01 and C06 plus call sequences in which one call fails (out-of-range, mistyped or missing value, rejected prototype; the file must still be well formed and hold the other items) (blobs, images of all four kinds with and without mask, point clouds over the type/width grid, interleaved; preceding content swept "
@@ -435,5 +505,6 @@ def run(rep, tier, rng, replay=None):
                        "and decoded by the extracted spec_decode_file; points and blob bytes must equal the input; the file's own XML, parsed by the extracted xml_parse and "
                        "extracted by the extracted extract_all (FileSpecXml.dx_of), must state exactly the published sections and the file must be spec_wellformed_xml, "
                        "which includes: the text of every prototype element is a value of the element's type within the element's own minimum/maximum (also checked by an independent "
-                       "regular-expression pass over the XML text; extra programs with limited Float records: limits above zero, below zero, only a negative maximum, only a positive minimum). The bundled libE57Format files must be accepted and decode to what the "
+                       "regular-expression pass over the XML text; extra programs with limited Float records: limits above zero, below zero, only a negative maximum, only a positive minimum). "
+                       "Programs with 2-, 3-, 4-byte UTF-8 characters (one, several) in every metadata string: the XML section the header declares must parse, be the whole document, and be followed by zeros only. The bundled libE57Format files must be accepted and decode to what the "
                        "reader returns; one real file with one defect at a time (40 defects: every clause of the decoder) must be rejected. Correspondence: writer model file = real file byte for byte. distinct = distinct programs")
